@@ -47,6 +47,7 @@ func handPickedNamed() map[string]Case {
 	return map[string]Case{
 		"F-20f-enum-constant-collision": {Schema: clash, Docs: []Doc{{Defs: []Def{q(f("a", f("c")))}}}, Seed: 7, Worlds: 4},
 		"F-20g-sel-type-name-collision": sn,
+		"interface-only-self-referential-object": interfaceOnly(),
 		"F-20h-enum-named-int":    reservedEnum("int"),
 		"F-20h-enum-named-type":   reservedEnum("type"),
 		"F-20h-enum-named-string": reservedEnum("string"),
@@ -115,4 +116,25 @@ func reservedEnum(name string) Case {
 	}
 	q := Def{Kind: "query", Name: "Q1", Sels: []Sel{f("a", f("c"), f("x")), f("u", f("__typename"), on("Alpha", f("c")))}}
 	return Case{Schema: s, Docs: []Doc{{Defs: []Def{q}}}, Seed: 7, Worlds: 4}
+}
+
+// interfaceOnly: Folder and File implement Node and Named and are returned through `nodes: [Node!]!`
+// only; Folder refers to itself (parent) and File to Folder (dir). The tool can know these objects
+// only from the `types` list of the introspection result.
+func interfaceOnly() Case {
+	id := FieldSpec{Name: "id", Type: nonNull(named("ID"))}
+	name := FieldSpec{Name: "name", Type: nonNull(named("String"))}
+	s := SchemaSpec{Query: "Query", Types: []TypeSpec{
+		{Kind: "iface", Name: "Node", Fields: []FieldSpec{id}},
+		{Kind: "iface", Name: "Named", Fields: []FieldSpec{name}},
+		{Kind: "object", Name: "Folder", Ifaces: []string{"Node", "Named"}, Fields: []FieldSpec{id, name, {Name: "parent", Type: named("Folder")}}},
+		{Kind: "object", Name: "File", Ifaces: []string{"Node", "Named"}, Fields: []FieldSpec{id, name, {Name: "dir", Type: named("Folder")}}},
+		{Kind: "object", Name: "Query", Fields: []FieldSpec{{Name: "nodes", Type: nonNull(listOf(nonNull(named("Node"))))}}},
+	}}
+	q1 := Def{Kind: "query", Name: "Q1", Sels: []Sel{f("nodes", f("__typename"), f("id"),
+		on("Folder", f("name"), f("parent", f("name"), f("parent", f("id")))),
+		on("File", f("dir", f("name"))))}}
+	q2 := Def{Kind: "query", Name: "Q2", Sels: []Sel{f("nodes", f("__typename"), on("Named", f("name")), spread("Dir"))}}
+	dir := Def{Kind: "frag", Name: "Dir", Cond: "File", Sels: []Sel{f("dir", f("__typename"), on("Node", f("id")))}}
+	return Case{Schema: s, Docs: []Doc{{Defs: []Def{q1}}, {Defs: []Def{q2, dir}}}, Seed: 11, Worlds: 4}
 }
